@@ -19,7 +19,7 @@ def mc_runs(ctx, which):
     else:
         runs = [("small4", dict(BASE, Limits="<- LimSmall", MaxCid=4)),
                 ("mixed", dict(BASE, Limits="<- LimMixed", MaxCid=3, AddrsOf="<- AddrsDef")),
-                ("two", dict(BASE, Limits="<- LimTwo", MaxCid=4))]
+                ("two", dict(BASE, Limits="<- LimTwo", MaxCid=3))]
     out = []
     for name, consts in runs:
         r = tlc_mc(ctx, "ConnMgrMC.tla", write_cfg(ctx, "mc_%s.cfg" % name, consts, ["SPECIFICATION Spec"] + MC_INV),
@@ -35,7 +35,7 @@ def mc_runs(ctx, which):
 
 def generate(ctx):
     gl = ["SPECIFICATION Spec", "VIEW GenView", "ACTION_CONSTRAINT Emit", "CHECK_DEADLOCK FALSE"]
-    sets = [("LimSmall", 2), ("LimNone", 2), ("LimTwo", 2), ("LimLeak", 3)] if ctx.quick() else [("LimSmall", 3), ("LimMixed", 3), ("LimTwo", 3)]
+    sets = [("LimSmall", 2), ("LimNone", 2), ("LimTwo", 2), ("LimLeak", 3)] if ctx.quick() else [("LimSmall", 3), ("LimLeak", 3), ("LimNone", 2), ("LimTwo", 2)]
     behs, stats = [], []
     import random
     for lim, mc in sets:
@@ -107,7 +107,7 @@ def classify(seg, idx, reason):
     return [reason.replace(" ", "-")]
 
 
-def pipeline(ctx, pid, nrand_quick=1500, nrand_thorough=60000):
+def pipeline(ctx, pid, nrand_quick=1500, nrand_thorough=12000):
     mc = mc_runs(ctx, pid)
     behs, gstats = generate(ctx)
     write_jsonl(ctx.path("behs.jsonl"), behs)
@@ -120,7 +120,11 @@ def pipeline(ctx, pid, nrand_quick=1500, nrand_thorough=60000):
     lines = read_lines(ctx.path("trace.ndjson"))
     nseg, nev, rejects = validate_all(ctx, "ConnMgrTrace.tla", "ConnMgrTrace.cfg", lines, mode="prop")
     # drift check against the implementation-shaped model (address shapes are not modelled there)
-    impl_lines = [ln for seg in split_segments(lines, lambda ln: '"e":"reset"' in ln) if '"src":"shapes"' not in seg[0] for ln in seg]
+    impl_segs = [seg for seg in split_segments(lines, lambda ln: '"e":"reset"' in ln) if '"src":"shapes"' not in seg[0]]
+    if not ctx.quick() and len(impl_segs) > 60000:
+        import random
+        impl_segs = random.Random(ctx.seed).sample(impl_segs, 60000)   # drift check on a seeded sample
+    impl_lines = [ln for seg in impl_segs for ln in seg]
     _, _, drift = validate_segments(ctx, "ConnMgrTrace.tla", "ConnMgrTrace.cfg", impl_lines, mode="impl", max_rejects=3, tag="d")
     for seg, idx in drift:
         log("NOTE drift: real TransportManager deviates from ConnMgrMC at %s" % seg[idx - 1][:400])
